@@ -148,7 +148,8 @@ def corpus_part(prop):
         kv = dict(x.split('=', 1) for x in first.split('#')[0].split() if '=' in x)
         if kv.get('config') in units:
             todo.append((t, units[kv['config']]))
-    exes = D.ensure_built([u for _, u in todo])
+    exes = D.ensure_built([u for _, u in todo], tolerate=True)  # a changed tree may break one configuration only: its tapes are left out (NOTE line)
+    todo = [(t, u) for t, u in todo if u.name in exes]
     viol, samples = [], []
 
     def one(tu):
@@ -517,7 +518,7 @@ def enum_part(prop, name, units, seed, tier, rule, crash_is_violation=True, exha
 
 
 C12_RULE = ('complete enumeration: all subsets of k odd keys (k=8 quick, k=11 thorough) as contents x every hint in [begin,end] x every value 0..2k x '
-            '{insert(hint,const&), insert(hint,&&), emplace_hint} x 11 comparator/vector/element configurations (stateful comparator in 6 states); '
+            '{insert(hint,const&), insert(hint,&&), emplace_hint(key), emplace_hint(element&&)} x 11 comparator/vector/element configurations (stateful comparator in 6 states); '
             'oracle: same sequence as insert(value) on a copy and as std::set, returned iterator designates the equivalent element, size grows by '
             '[absent]; non-trivial = hint is not the lower bound or the value is present; distinct = distinct grid point')
 
